@@ -33,7 +33,7 @@ def plan(tier):
                     sh.append(('native', gi, n, ('dev', sprops.V4, base, d, 6000 if tier == 'quick' else 60000), dict(unary_penalty=0.5, nbest=nbest), J))
         # beam settings: leaves must be admitted tags
         if T > 1:
-            for cfgb in (dict(pruning_size=1), dict(use_beta=True, beta=0.01), dict(pruning_size=2, use_beta=True, beta=0.2)):
+            for cfgb in (dict(pruning_size=0), dict(pruning_size=1), dict(use_beta=True, beta=0.01), dict(pruning_size=2, use_beta=True, beta=0.2)):
                 sh.append(('native', gi, 2, ('dev', [0.0, -1.0, -4.0, -8.0], -1.0, 2 if not real else 1, 8000), dict(cfgb, unary_penalty=0.5, nbest=2), J))
                 sh.append(('full', gi, 2, ('dev', [0.0, -1.0, -8.0], -1.0, 1, 1000), dict(cfgb, unary_penalty=0.0, nbest=1), J))
         # full products for the smallest spaces
